@@ -1,7 +1,7 @@
 """C11 - depth cuts off exactly below the requested nesting level."""
 import ast
 
-from .. import core, values
+from .. import core, gens, values
 from . import c01
 
 ID = 'C11'
@@ -135,7 +135,7 @@ def strategy(tier):
             st.lists(ch, max_size=3).map(lambda xs: ['tuple', xs]),
             st.lists(st.tuples(ghash, ch).map(list), max_size=3).map(lambda kv: ['dict', kv]),
             st.tuples(st.sampled_from(['box', 'alt']), st.lists(ch, max_size=3),
-                      st.lists(st.tuples(st.sampled_from(['a', 'b']), ch).map(list), max_size=2, unique_by=lambda p: p[0])).map(
+                      gens.named_values(st, ['a', 'b'], ch, 2)).map(
                 lambda p: ['call', p[0], p[1], p[2]]),
             # instances of user subclasses of the containers
             st.tuples(st.sampled_from(['plain', 'repr']), st.lists(ch, max_size=3)).map(lambda p: ['sub', 'list', p[0], ['list', p[1]]]),
@@ -333,6 +333,9 @@ def walk_generic(full, cut, a, b, d, iskey=False):
             # a leaf printed in full although every way of counting puts it at or below the cut
             if iskey and isinstance(full, ast.Constant) and type(full.value) in (str, bytes) and a <= d <= b + 1:
                 return
+            if (iskey and isinstance(full, ast.Call) and len(full.args) == 1 and isinstance(full.args[0], ast.Constant)
+                    and type(full.args[0].value) in (str, bytes) and _scalar_wrapper(full.func) and a <= d <= b + 1):
+                return              # a str / bytes subclass instance as a dict key: the same tolerance as for str keys
             if isinstance(full, (ast.List, ast.Tuple, ast.Set, ast.Dict)) or (isinstance(full, ast.Call) and not full.args and not full.keywords):
                 return              # empty containers may print in full
             raise Bad('%s is inside at least %d containers (depth %d) but is printed in full' % (fd[:80], a, d))
@@ -342,14 +345,14 @@ def walk_generic(full, cut, a, b, d, iskey=False):
             and not full.keywords and not cut.keywords and ast.dump(full.func) == ast.dump(cut.func)
             and isinstance(cut.args[0], (ast.List, ast.Set)) and looks_like_placeholder(cut.args[0])
             and (not full.args or (isinstance(full.args[0], (ast.List, ast.Tuple, ast.Dict, ast.Set))
-                                   and ast.dump(cut.args[0]) == placeholder_for(full.args[0])))
-            and not (full.args and isinstance(full.args[0], (ast.List, ast.Set)) and len(full.args[0].elts) == 1 and isinstance(full.args[0].elts[0], ast.Tuple))):
-        # (not the ambiguous [(...)]: a one-element list holding the placeholder of a tuple - judged structurally below)
+                                   and ast.dump(cut.args[0]) == placeholder_for(full.args[0])))):
         # an instance of a subclass of a container beyond the cut prints as Sub([...]) / Sub({...}): the call of its
         # own type around the placeholder of the underlying literal
         if b >= d:
             return
-        raise Bad('%s is inside at most %d containers (depth %d) but was replaced by a placeholder' % (fd[:80], b, d))
+        # (the ambiguous Sub([(...)]) - a one-element list holding the placeholder of a tuple - is judged structurally below)
+        if not (full.args and isinstance(full.args[0], (ast.List, ast.Set)) and len(full.args[0].elts) == 1 and isinstance(full.args[0].elts[0], ast.Tuple)):
+            raise Bad('%s is inside at most %d containers (depth %d) but was replaced by a placeholder' % (fd[:80], b, d))
     if cd == ph and fd != ph:
         if b >= d:
             return
